@@ -847,7 +847,7 @@ class Summariser(object):
                     q.result = None
                 else:
                     self.done.append(q)
-            if self.safe:
+            if True:
                 for q in after + broke:
                     for nm in names:
                         if nm in q.frozen:
@@ -1181,26 +1181,35 @@ def alpha_rename(fnode):
     return [R().visit(st) for st in body]
 
 
-def check_ref(ctx, rule, func, what, reference, construct, outcome=None, bool_calls=(), as_bool=False, analysis=None, alpha=False, **kw):
-    """Obligation: `func` selects the same outcome as the reference snippet for every truth assignment of the
-    branch atoms.  `reference` is source text in the function's own vocabulary; both sides go through the same
-    normal form, so only a semantic difference (some assignment selecting a different outcome) fails."""
+def check_ref(ctx, rule, func, what, reference, construct, outcome=None, bool_calls=(), as_bool=False, analysis=None, alpha=False, where=None, **kw):
+    """Obligation: `func` (a FuncInfo, FunctionDef or statement list) selects the same outcome as the reference snippet for
+    every truth assignment of the branch atoms.  `reference` is source text in the function's own vocabulary; both sides
+    go through the same normal form, so only a semantic difference (some assignment selecting a different outcome) fails.
+    alpha=True renames locals by first binding on both sides; alpha="auto" tries the names as written first."""
     outcome = outcome or result_text
-    node = getattr(func, "node", func)
-    ref = _ref_body(reference)
-    if alpha:
-        node = alpha_rename(node)
-        ref = alpha_rename(ref)
-    pa = paths_of(node, qualname=getattr(func, "qualname", ""), bool_calls=bool_calls, **kw)
-    try:
-        pb = Summariser(ref, "<reference>", bool_calls=bool_calls, **kw).run()
-    except Unsupported as e:
-        raise AnalysisError(rule, "<reference>", "reference table not computable: %s" % e)
-    if as_bool:
-        pa, pb = boolify(pa, bool_calls), boolify(pb, bool_calls)
-    ta, tb = table(pa, outcome), table(pb, outcome)
-    ok, detail = compare(ta, tb)
-    ctx.ob(rule, func, what, ok, construct=construct, detail=detail,
+    node0 = getattr(func, "node", func)
+    ref0 = _ref_body(reference)
+    ok, detail = False, ""
+    for use_alpha in ([False, True] if alpha == "auto" else [bool(alpha)]):
+        node, ref = node0, ref0
+        if use_alpha:
+            node = alpha_rename(node)
+            ref = alpha_rename(ref)
+        pa = paths_of(node, qualname=getattr(where if where is not None else func, "qualname", ""), bool_calls=bool_calls, **kw)
+        try:
+            pb = Summariser(ref, "<reference>", bool_calls=bool_calls, **kw).run()
+        except Unsupported as e:
+            raise AnalysisError(rule, "<reference>", "reference table not computable: %s" % e)
+        if as_bool:
+            pa, pb = boolify(pa, bool_calls), boolify(pb, bool_calls)
+        ta, tb = table(pa, outcome), table(pb, outcome)
+        ok, d = compare(ta, tb)
+        detail = detail or d
+        if ok:
+            detail = ""
+            break
+    where = where if where is not None else func
+    ctx.ob(rule, where, what, ok, construct=construct, detail=detail,
            analysis=analysis or "guarded normal form (if-conversion + copy propagation) compared with the reference table over all atom assignments")
     return ok
 
@@ -1214,14 +1223,17 @@ def _ref_body(text):
     return body
 
 
-def outcome_with(stores=None, calls=None, result=True):
-    """Outcome projection: ordered stores whose target matches `stores`, calls whose callee text matches `calls`,
-    then the result.  `stores` / `calls` are predicates on text (or None to leave that kind out)."""
+def outcome_with(stores=None, calls=None, result=True, carries=None):
+    """Outcome projection: ordered stores whose target matches `stores`, calls whose callee text matches `calls`, values a
+    loop body hands to its next iteration for the names matching `carries`, then the result.  The selectors are
+    predicates on text (or None to leave that kind out)."""
     def f(p):
         parts = []
         for k, t, e in p.effects:
             if k == "store" and stores is not None and stores(t):
                 parts.append("%s = %s" % (t, arith_text(e)))
+            elif k == "carry" and carries is not None and carries(t):
+                parts.append("next %s = %s" % (t, arith_text(e)))
             elif k == "call" and calls is not None and calls(t):
                 parts.append(src(e))
         if result:
